@@ -276,7 +276,7 @@ func (c *calledEv) Instr(st uint8, ins ssa.Instruction) uint8 {
 	return st
 }
 func (c *calledEv) Edge(st uint8, _ *ssa.BasicBlock, _ int) uint8 { return st }
-func (c *calledEv) Holds(st uint8) bool                          { return st&bEST != 0 }
+func (c *calledEv) Holds(st uint8) bool                           { return st&bEST != 0 }
 
 // ---------- exploration ----------
 
